@@ -8,7 +8,7 @@ variable {src : Array Char} {r : Tbl} [hr : TblOK src r]
 theorem callArgsLoop_spec : ∀ fuel args ewc, T src Tr (callArgsLoop r fuel args ewc) (fun _ _ => True) := by
   intro fuel
   induction fuel with
-  | zero => intro args ewc; unfold callArgsLoop; exact T.throw _ rfl
+  | zero => intro args ewc; unfold callArgsLoop; exact T.throw _ (fun _ _ => trivial)
   | succ n ih => intro args ewc; unfold callArgsLoop; hloop ih
 
 set_option maxHeartbeats 4000000 in
@@ -18,7 +18,7 @@ theorem primaryExpressionBody_go_spec : ∀ fuel x, ExprOK x →
     T src Tr (primaryExpressionBody.go r fuel x) (fun e _ => ExprOK e) := by
   intro fuel
   induction fuel with
-  | zero => intro x _; unfold primaryExpressionBody.go; exact T.throw _ rfl
+  | zero => intro x _; unfold primaryExpressionBody.go; exact T.throw _ (fun _ _ => trivial)
   | succ n ih =>
     intro x hx
     unfold primaryExpressionBody.go
